@@ -164,6 +164,12 @@ impl Session {
                     return Err(Error::SessionNotEstablished);
                 }
             };
+            // The record used to verify the signature must belong to the node id the
+            // handshake claims. Otherwise anyone could prove "identity" with a record signed
+            // by their own key. Treat this like an invalid signature.
+            if enr.node_id() != *remote_id {
+                return Err(Error::InvalidChallengeSignature(Box::new(challenge)));
+            }
             enr.public_key()
         };
 
